@@ -242,6 +242,12 @@ class Random(HypPart):
         while not t.exhausted():
             if t.chance(30):
                 pool, text = 'G5-pumped', pools.pumped(t, 4096)
+            elif t.chance(40):
+                # payload-bearing snippets of the escaping properties: unusual characters in destinations, titles,
+                # info strings, definitions, cells — the places where renderers format text into templates
+                from . import c08, c17
+                frags = c17.PAYLOAD if t.chance(128) else c08.PAYLOAD
+                pool, text = 'G6-hostile', '\n\n'.join(c08.hostile(t, frags) for _ in range(1 + t.below(3)))
             else:
                 pool, text = pools.any_text(t, 300)
             n_r = 1 + t.below(3)
